@@ -199,7 +199,7 @@ func (c *Cluster) pvcExists(name string) bool {
 
 // startPod starts the sidecar "process" of a pod over its directory.
 func (c *Cluster) startPod(p *Pod, now time.Time) error {
-	opt := sidecarsim.Options{Dir: p.Dir, Targets: c.Targets}
+	opt := sidecarsim.Options{Dir: p.Dir, Targets: c.Targets, PromHost: p.IP + ":9090"}
 	if p.FileMode {
 		opt.ConfigFile = filepath.Join(p.Dir, "prometheus.env.yaml")
 		if p.FileText == "" {
@@ -272,6 +272,9 @@ func (c *Cluster) Step(now time.Time) error {
 			if o >= want {
 				p := r.Pods[o]
 				c.Net.Unhandle(p.Host)
+				if p.SC != nil {
+					p.SC.Stop()
+				}
 				delete(r.Pods, o)
 				c.logf("pod %s deleted", p.Name)
 			}
